@@ -266,17 +266,9 @@ def measure_chain_rule(ctx, rid):
     ss = repo.cls('cirq.sim.simulation_state.SimulationState')
     fn = repo.method(ss.qual, 'measure')
     # def-use chain:  bits <- _perform_measurement ; confused <- f(bits, confusion_map) ; corrected <- f(confused, invert_mask) ; record(key, corrected)
-    dep = {a.arg: {a.arg} for a in fn.args.args}
-    for _ in range(4):
-        for n in ast.walk(fn):
-            if isinstance(n, ast.Assign) and isinstance(n.targets[0], ast.Name):
-                used = set()
-                for x in ast.walk(n.value):
-                    if isinstance(x, ast.Name) and x.id in dep:
-                        used |= dep[x.id]
-                    if isinstance(x, ast.Call) and call_name(x) == '_perform_measurement':
-                        used.add('<measured>')
-                dep.setdefault(n.targets[0].id, set()).update(used)
+    from ..flow import name_deps
+    dep = name_deps(fn, {a.arg: {a.arg} for a in fn.args.args},
+                    source_of=lambda x: {'<measured>'} if isinstance(x, ast.Call) and call_name(x) == '_perform_measurement' else None)
     rec = [c for c in ast.walk(fn) if isinstance(c, ast.Call) and call_name(c) == 'record_measurement']
     if not rec:
         raise AnalysisError('SimulationState.measure: record_measurement call vanished')
@@ -285,6 +277,8 @@ def measure_chain_rule(ctx, rid):
         for x in ast.walk(e):
             if isinstance(x, ast.Name) and x.id in dep:
                 out |= dep[x.id]
+            if isinstance(x, ast.Call) and call_name(x) == '_perform_measurement':
+                out.add('<measured>')
         return out
     vdep = deps_of(rec[0].args[1]) if len(rec[0].args) > 1 else set()
     kdep = deps_of(rec[0].args[0]) if rec[0].args else set()
